@@ -60,7 +60,11 @@ Arg(r) ==
 RECURSIVE Sentence(_, _)
 Sentence(r, n) == IF n = 0 THEN <<>> ELSE <<Arg(r)>> \o Sentence(LCG(LCG(LCG(LCG(r)))), n - 1)
 \* every sentence gets at least one keyframe at the end so that the state is really animated
-SentenceK(r) == Sentence(r, 1 + (r % 4)) \o <<[k |-> "kf", pos |-> PD, form |-> "to", dflt |-> (r % 5) = 0,
+\* ... except that one sentence in seven is a timing-only timeline (no keyframe at all): the state is
+\* then animated by a timeline that writes nothing (it still runs, ends, and is not "unmentioned")
+NoKf(s) == SelectSeq(s, LAMBDA a : a.k # "kf")
+SentenceK(r) == IF (r % 7) = 3 THEN NoKf(Sentence(r, 1 + (r % 4))) \o <<[k |-> "dur", t |-> Pick(DurT, r), form |-> "s"]>>
+                ELSE Sentence(r, 1 + (r % 4)) \o <<[k |-> "kf", pos |-> PD, form |-> "to", dflt |-> (r % 5) = 0,
                                                d |-> <<<<Pick(ValX, r)>>, <<>>, IF (r % 2) = 0 THEN <<Pick(ValN, r)>> ELSE <<>>, <<>>>>]>>
 
 Arm(r) ==
